@@ -206,6 +206,30 @@ def reachable_in_class(ctx: Context, c: ClassInfo, roots: list[str]) -> list[Fun
 INPLACE = {"append", "extend", "insert", "pop", "remove", "clear", "update", "setdefault", "popitem", "sort", "fill", "add", "discard", "resize", "put"}
 
 
+def _only_memo_stores(prog, f: FuncInfo, attr: str) -> bool:
+    """Outside the constructor, `self.<attr>` is only ever filled by value-memo stores (and emptied): it is a memo, not state."""
+    from ..util import is_value_memo_store
+    if f.cls is None:
+        return False
+    n_memo = 0
+    for k in prog.mro(f.cls):
+        for g in k.methods.values():
+            if g.self_name is None:
+                continue
+            for x in walk_scope(g.node):
+                tgts = x.targets if isinstance(x, ast.Assign) else [x.target] if isinstance(x, (ast.AugAssign, ast.AnnAssign)) else []
+                for t in tgts:
+                    if isinstance(t, ast.Subscript) and src(t.value) == f"{g.self_name}.{attr}":
+                        if not (isinstance(x, ast.Assign) and is_value_memo_store(prog, g, x, f"{g.self_name}.{attr}")):
+                            return False
+                        n_memo += 1
+                    elif is_self_attr(t, g.self_name, attr) and g.name != "__init__":
+                        return False
+                if isinstance(x, ast.Call) and isinstance(x.func, ast.Attribute) and src(x.func.value) == f"{g.self_name}.{attr}" and x.func.attr in ("update", "setdefault", "__setitem__"):
+                    return False
+    return n_memo > 0
+
+
 def r2_no_state(ctx: Context) -> None:
     prog = ctx.prog
     n_funcs = 0
@@ -231,6 +255,9 @@ def r2_no_state(ctx: Context) -> None:
                     while isinstance(base, (ast.Subscript, ast.Attribute)) and not is_self_attr(base, sn):
                         base = base.value
                     if sn and is_self_attr(base, sn):
+                        if n.func.attr in ("pop", "popitem", "clear") and base is n.func.value and _only_memo_stores(prog, f, base.attr):
+                            ctx.ok("R2.no-state", f"{_q(f)}:memo-eviction:self.{base.attr}", f"`{src(n)[:60]}` only drops entries of a memo keyed by value")
+                            continue
                         ctx.fail("R2.no-state", f"{_q(f)}:inplace:{src(n.func)}", f"`{src(n)[:80]}` mutates a loss attribute during an evaluation", f, n)
                     elif isinstance(base, ast.Name) and base.id in prog.module_consts.get(f.module.name, {}):
                         ctx.fail("R2.no-state", f"{_q(f)}:module-state:{base.id}", f"`{src(n)[:80]}` mutates module-level `{base.id}` during an evaluation", f, n)
@@ -242,6 +269,12 @@ def r2_no_state(ctx: Context) -> None:
                         sub = True
                     if sn and is_self_attr(base, sn):
                         attr = base.attr  # type: ignore[union-attr]
+                        if sub and isinstance(stmt, ast.Assign):
+                            from ..util import is_value_memo_store
+                            if is_value_memo_store(prog, f, stmt, f"{sn}.{attr}") and _only_memo_stores(prog, f, attr):
+                                ctx.ok("R2.no-state", f"{_q(f)}:value-memo:self.{attr}", f"`self.{attr}` is a memo keyed by value whose entries nobody writes into: an evaluation reads what it would "
+                                       "have computed, earlier evaluations make no difference")
+                                continue
                         if not sub and v is not None and _idempotent(v, sn, attr):
                             ctx.ok("R2.no-state", f"{_q(f)}:self.{attr}", f"`{src(stmt)[:70]}` is an idempotent rebind (type narrowing)")
                             continue
